@@ -263,3 +263,7 @@ func Fact(n int) int {
 	}
 	return f
 }
+
+// Canonical returns a context that answers 0 at every point (the default
+// execution), for bodies that are to be run once without exploration.
+func Canonical() *Ctx { return &Ctx{} }
